@@ -14,7 +14,7 @@ SHARDS = {"quick": 8, "thorough": 16}
 RULE = (
     "fault enumeration: a catalogue of hostile-but-well-formed client messages (unknown device / property / element, every "
     "new*Vector kind x target vector kind mismatch incl. Light targets, invalid switch / number / base64 text, wrong, non-numeric or "
-    "missing BLOB size and format - also with no payload at all -, no children, duplicate children, valid and unknown elements mixed, absent values, message kinds "
+    "missing BLOB size and format - also with no payload at all, and sizes around 2**63 / 2**64 under compressed formats -, no children, duplicate children, valid and unknown elements mixed, absent values, message kinds "
     "a client should not send - also def*/set*Vector naming elements the property does not have -, getProperties/enableBLOB for unknown targets) x every target vector kind x every insertion position "
     "in a session of valid traffic x transport {TCP handler, TTY handler, direct Router.process_message} x delivery of the hostile "
     "message {one read; two reads cut after the first '>' or 3 characters before the end (TCP); one line per element (TTY)} x "
